@@ -116,3 +116,42 @@ def c11_types():
             except NotImplementedError: pass
             except Exception as ex: fails.append(fail(f'C11.{name}.intersection.type', f'{type(ex).__name__} instead of NotImplementedError for {other!r}'))
     return fails
+
+
+def c11_shared_states(G, R1, R2, n=3):
+    """two intersections whose automata are built over the same State objects: the second answer must be what a fresh automaton gives"""
+    from pyformlang.finite_automaton import DeterministicFiniteAutomaton, State, Symbol
+    fails = []
+    pool = {}
+    def st(v): return pool.setdefault(v, State(v))
+    def build_shared(R):
+        d = DeterministicFiniteAutomaton()
+        for s_ in sorted(R[2], key=repr): d.add_start_state(st(s_))
+        for s_ in sorted(R[3], key=repr): d.add_final_state(st(s_))
+        for (p_, a_, q_) in sorted(R[4], key=repr): d.add_transition(st(p_), Symbol(a_), st(q_))
+        return d
+    # the two automata overlap on some State objects only (R1 lives on p2, p3, ..., R2 on p0, p1, ...), string values so that set order varies
+    ren1 = lambda R, off: F.mk({f'p{s_ + off}' for s_ in R[0]}, R[1], {f'p{s_ + off}' for s_ in R[2]}, {f'p{s_ + off}' for s_ in R[3]}, {(f'p{a_ + off}', b_, f'p{c_ + off}') for a_, b_, c_ in R[4]})
+    R1, R2 = ren1(R1, 2), ren1(R2, 0)
+    L = C.lang(G, n)
+    g = C.build(G)
+    for step, R in (('first', R1), ('second (same State objects)', R2), ('third (first automaton again)', R1)):
+        ok, r = guarded(f'C11.cfg.intersection[shared states].{step}', lambda: g.intersection(build_shared(R)), fails)
+        if not ok: continue
+        got = C.lang(C.extract(r), n) if r.start_symbol is not None else set()
+        exp = {w for w in L if F.accepts(R, list(w))}
+        if got != exp: fails.append(fail('C11.cfg.intersection[shared states]', f'{step}: differs on {sorted(got ^ exp)[:3]}'))
+    # one automaton extended between two intersections
+    d = build_shared(R1); g2 = C.build(G)
+    ok, _ = guarded('C11.cfg.intersection[extended]', lambda: g2.intersection(d), fails)
+    d.add_transition(st('a0'), Symbol('a'), st('a1')); d.add_final_state(st('a1'))
+    for (p_, a_, q_) in sorted(R2[4], key=repr)[:3]:
+        try: d.add_transition(st(p_), Symbol(a_), st(q_))
+        except Exception: pass
+    Rd = F.extract(d)
+    ok, r = guarded('C11.cfg.intersection[extended]', lambda: g2.intersection(d), fails)
+    if ok:
+        got = C.lang(C.extract(r), n) if r.start_symbol is not None else set()
+        exp = {w for w in L if F.accepts(Rd, list(w))}
+        if got != exp: fails.append(fail('C11.cfg.intersection[extended]', f'after extending the automaton: differs on {sorted(got ^ exp)[:3]}'))
+    return fails
